@@ -21,11 +21,9 @@
 (*    Expected(fmt, desc)            = carried leaves of ReadBack(desc)                                        *)
 (*    MatchStateClass / Populated    which attributes a read-back state populates                             *)
 (*    AbstractDoc(desc)              the XML document (element entries of Xsd2020a) the contract demands       *)
-EXTENDS Xsd2020a
+EXTENDS Xsd2020a, SequencesExt          \* Range(f) == {f[x] : x \in DOMAIN f} comes with Functions
 
-Range(s) == {s[i] : i \in DOMAIN s}
-RECURSIVE Cat(_)
-Cat(ss) == IF ss = <<>> THEN <<>> ELSE Head(ss) \o Cat(Tail(ss))                 \* flatten one level
+Cat(ss) == FlattenSeq(ss)                                                        \* flatten one level (no deep recursion)
 Map(s, Op(_)) == [i \in DOMAIN s |-> Op(s[i])]
 MapI(s, Op(_, _)) == [i \in DOMAIN s |-> Op(s[i], i)]
 RECURSIVE JoinS(_, _)
@@ -689,7 +687,6 @@ DocIds(d) == [i \in DOMAIN d.lanelets |-> <<Root \o <<"lanelet">>, I2S(d.lanelet
              \o Cat([i \in DOMAIN d.inters |-> [j \in DOMAIN d.inters[i].incs |-> <<Root \o <<"intersection", "incoming">>, I2S(d.inters[i].incs[j].id)>>]])
              \o [i \in DOMAIN d.obstacles |-> <<Root \o <<d.obstacles[i].role \o "Obstacle">>, I2S(d.obstacles[i].id)>>]
              \o [i \in DOMAIN d.pps |-> <<Root \o <<"planningProblem">>, I2S(d.pps[i].id)>>]
-DocRefs(d) == LET ents == AbstractDoc(d) IN
-              Cat([i \in DOMAIN ents |-> Cat([j \in DOMAIN ents[i].at |-> IF ents[i].at[j][1] = "ref" THEN <<ents[i].at[j][3]>> ELSE <<>>])])
+DocRefs(d) == LET re == SelectSeq(AbstractDoc(d), LAMBDA e : e.at # <<>> /\ e.at[1][1] = "ref") IN [k \in DOMAIN re |-> re[k].at[1][3]]
 ContractDocValid(d) == SchemaAccepts(AbstractDoc(d), DocIds(d), DocRefs(d))
 =============================================================================
